@@ -18,6 +18,16 @@ MCConfigsGen == MCConfigs \cup {[backup |-> TRUE,  sticky |-> "s2", weight |-> 0
 \* the smallest instance in which an open deviation shows (one primary configuration, one backup)
 MCConfigsDev == {[backup |-> FALSE, sticky |-> "", weight |-> 100], [backup |-> TRUE, sticky |-> "", weight |-> 100]}
 
+\* the smallest instances in which the self-test switches (ColdStartTable, FailKeepsClock, SucceedKeepsWait) show
+MCSlots2 == {[id |-> "b1", addr |-> 1], [id |-> "b2", addr |-> 2]}
+MCConfigs1 == {[backup |-> FALSE, sticky |-> "", weight |-> 100]}
+MCConfigsSticky == {[backup |-> FALSE, sticky |-> "s1", weight |-> 100]}
+
+\* the focused affinity generator: few configurations, so that many histories meet in the same (list, eligible set)
+MCConfigsAff == {[backup |-> FALSE, sticky |-> "", weight |-> 100],
+                 [backup |-> TRUE,  sticky |-> "", weight |-> 100],
+                 [backup |-> FALSE, sticky |-> "", weight |-> 50]}
+
 AllPolicies == {"rr", "random", "leastLoaded", "p2c", "hrw", "maglev"}
 
 =============================================================================
